@@ -59,8 +59,15 @@ def run(rep, tier, seed):
         cs = {"id": "c15-%d" % ci, "inputrc": ("set editing-mode vi\n" if mode == "vi" else "") + rng.choice(["", "", "set completion-ignore-case on\n", "set menu-complete-display-prefix on\n"]) + case_options(rng, ci, skip=("autocomplete", "disable-completion", "completion-query-items", "history-autosuggest", "keyseq-timeout")),
               "w": w, "h": h, "prompt": "> ", "binds": binds, "comp": {"cands": cands, "nosort": rng.random() < 0.3},
               "wrap": "none", "sessions": [sess]}
+        if ci % 3 == 2 and n >= 2:
+            # the application keeps ONE list of candidates and hands it out on every call; an earlier call completed a partial
+            # word (the library filtered the list), then the cycle starts from an empty word in the next call
+            cs["comp"]["reuse"] = True
+            v = rng.choice(cands)["v"]
+            pre = [keys(v[:rng.randint(1, max(1, len(v) - 1))]), keys(b"\t")] + ([keys(b"\t")] if rng.random() < 0.5 else []) + [keys(b"\x03")]
+            cs["sessions"] = [pre, sess]
         cases.append(cs)
-        meta[cs["id"]] = {"kind": kind, "n": n, "w": w, "h": h, "dirs": dirs, "cands": [c["v"] for c in cands]}
+        meta[cs["id"]] = {"kind": kind, "n": n, "w": w, "h": h, "dirs": dirs, "cands": [c["v"] for c in cands], "last": len(cs["sessions"]) - 1}
     log("C15: %d candidate sets" % len(cases))
     by = run_harness("session", cases, os.path.join(wd, "run"))
     per = {}
@@ -68,7 +75,7 @@ def run(rep, tier, seed):
         m = meta[cs["id"]]
         evs = by.get(cs["id"], [])
         bad = [e for e in evs if e["ev"] in ("panic", "hang", "died", "linger")]
-        waits = [e for e in evs if e["ev"] == "wait"]
+        waits = [e for e in evs if e["ev"] == "wait" and e.get("s", 0) == m.get("last", 0)]
         seq = []
         for wv in waits[1:]:
             s = "".join(map(chr, wv["line"])).strip()
@@ -98,7 +105,7 @@ def run(rep, tier, seed):
                       {"kind": "menu", "case": cmap[cid], "meta": m, "rejected_line": ln, "raw_event": {}})
     rep.rule = ("candidate sets of 1..60 values (plain, described, aliased by shared descriptions, multi-tag, tag + alias, double-width, long) at "
                 "terminal widths {20, 30, 40, 80, 120, 200} x heights {10, 24, 60}, cycled with menu-complete / menu-complete-backward for "
-                "2N+2 steps forward, backward, or one cycle then mixed directions; non-trivial = distinct (kind, N, width, height, direction)")
+                "2N+2 steps forward, backward, or one cycle then mixed directions (one case in three: the application hands out the same prebuilt list on every call and an earlier call completed a partial word); non-trivial = distinct (kind, N, width, height, direction)")
     rep.explanation = ("MenuGrid.tla transcribes the selector arithmetic and is model-checked over plain / aliased / multi-group grid shapes; the "
                        "word inserted after every key on the real library is validated by MenuTrace (permutation per cycle, ring neighbour on "
                        "every later step)")
@@ -110,7 +117,7 @@ def replay(rep, rp):
     cs, m = rp["case"], rp["meta"]
     by = run_harness("session", [cs], wd, nproc=1)
     evs = by.get(cs["id"], [])
-    waits = [e for e in evs if e["ev"] == "wait"]
+    waits = [e for e in evs if e["ev"] == "wait" and e.get("s", 0) == m.get("last", 0)]
     seq = [[ord(c) for c in "".join(map(chr, wv["line"])).strip()] for wv in waits[1:]]
     bad = [e for e in evs if e["ev"] in ("panic", "hang", "died", "linger")]
     dirs = m["dirs"][:len(seq)]
